@@ -14,7 +14,7 @@
     The cross-language comparison of the emitted .go/.kt/.py text is decided
     per case by checks/c20.py (the code generators are not modelled). *)
 From Coq Require Import Sorting.Permutation Sorting.Sorted.
-From Verif Require Import Model.Compile Spec.Placeholders Judge.JQ Judge.J03 Judge.J20 Proofs.PositionalFacts.
+From Verif Require Import Model.Compile Spec.Placeholders Judge.JQ Judge.J03 Judge.J20 Proofs.PositionalFacts Proofs.CompileFacts.
 Open Scope string_scope.
 Open Scope list_scope.
 
@@ -29,6 +29,23 @@ Theorem C20_binds_text_order_partial : forall (refs : list pref) (marks : list (
   map mark_of (sort_refs_loc refs) = marks.
 Proof. exact binds_text_order. Qed.
 Print Assumptions C20_binds_text_order_partial.
+
+(** ... and on the COMPOSED model: whenever parse_query in positional mode
+    accepts a statement (no reference dropped or duplicated: c20_class = 0), its
+    k-th parameter carries the number of the k-th placeholder occurrence in
+    text order, for any strictly offset-sorted list of occurrences the found
+    references are a permutation of. *)
+Theorem C20_compiled_partial : forall e raw src q,
+  parse_query e raw src true = Ok (Some q) ->
+  c20_class e raw = 0%N ->
+  exists refs0,
+    find_parameters (kid "Stmt" (fst (fst (named_parameters (env_engine e) raw)))) = Ok refs0 /\
+    forall marks,
+      StronglySorted (fun a b => (fst a < fst b)%Z) marks ->
+      Permutation (map mark_of refs0) marks ->
+      map p_num (q_params q) = map snd marks.
+Proof. exact compiled_binds_text_order. Qed.
+Print Assumptions C20_compiled_partial.
 
 (** the sort is stable and leaves a list already in text order alone *)
 Theorem C20_sorted_fixpoint : forall refs,
